@@ -72,10 +72,10 @@ def fmt_cdef(items):
     return ";".join(f"c:{c}^{e}" for c, e in items) if items else "-"
 
 
-def fmt_uterm(num, items):
+def fmt_uterm(num, items, numkind="n"):
     parts = []
     if num is not None:
-        parts.append(f"n:{rat(num)}^1")
+        parts.append(f"{numkind}:{rat(num)}^1")
     parts += [f"u:{u}^{e}" for u, e in items]
     return ";".join(parts) if parts else "-"
 
@@ -193,15 +193,22 @@ class HistGen:
         w.classes[u["cls"]]["units"].append(sym)
         return dict(op=op, expect="ok", kind="scaled-unit", new_sym=sym)
 
-    def _term_for(self, cls):
-        """units^exps whose dimension equals cls's, through the class items"""
+    def _term_for(self, cls, ref_only=False):
+        """units^exps whose dimension equals cls's, through the class items
+        (for a base class with reference unit: one of its own units)"""
         w, rng = self.w, self.rng
         c = w.classes[cls]
         if "items" not in c:
-            return None
+            if c["ref"] is None:
+                return None
+            us = [c["ref"]] if ref_only else \
+                [s for s in c["units"] if w.units[s]["scale"] is not None]
+            return [(rng.choice(us), 1)] if us else None
         items = []
         for bc, e in c["items"]:
             us = [s for s in w.classes[bc]["units"] if w.units[s]["scale"] is not None]
+            if ref_only:
+                us = [w.classes[bc]["ref"]] if w.classes[bc]["ref"] in us else []
             if not us:
                 return None
             items.append((rng.choice(us), e))
@@ -234,16 +241,23 @@ class HistGen:
             return dict(op=op, expect="ok", kind="derive-unit", new_sym=sym)
         return None
 
-    def term_unit(self):
+    def term_unit(self, only_cls=None, force_kind=None):
         w, rng = self.w, self.rng
-        cands = [n for n, c in w.classes.items() if "items" in c]
+        cands = [n for n, c in w.classes.items() if "items" in c
+                 or (c["ref"] is not None and c["quantum"] is None)]
         rng.shuffle(cands)
+        if only_cls is not None:
+            cands = [only_cls]
         for cls in cands:
-            items = self._term_for(cls)
+            # force_kind "i": a plain int times reference units only (the int
+            # then survives reduction and normalisation as the unit's scale)
+            items = self._term_for(cls, ref_only=(force_kind == "i"))
             if not items:
                 continue
             num = rng.choice(FACTORS + [None, None])
-            if rng.random() < self.split_items:
+            if force_kind == "i":
+                num = Fraction(rng.choice([2, 3, 7, 12, 60, 1000, 1024]))
+            if force_kind != "i" and rng.random() < self.split_items:
                 # name two different units of one base type: u^e -> u^e1 * u2^e2
                 split = []
                 for u, e in items:
@@ -261,7 +275,11 @@ class HistGen:
             if rng.random() < .5:
                 rng.shuffle(items)
             sym = w.fresh("t")
-            op = ["new_unit", cls, sym, "term", fmt_uterm(num, items)]
+            # the numeric factor as Decimal (when finite), Fraction or plain int
+            kind = "n"
+            if num is not None and (force_kind or rng.random() < .4):
+                kind = "i" if num.denominator == 1 else "f"
+            op = ["new_unit", cls, sym, "term", fmt_uterm(num, items, kind)]
             w.units[sym] = dict(cls=cls, scale=scale, dim=w.classes[cls]["dim"])
             w.classes[cls]["units"].append(sym)
             return dict(op=op, expect="ok", kind="term-unit", new_sym=sym)
